@@ -53,3 +53,43 @@ PROPS['C04'] = dict(
   verus=[dict(unit='peephole', min_functions=2), dict(unit='bytecode', min_functions=1), _findings_variant(['spec:handler_depth_is_live_depth'])],
   not_decided=['PopHandler emission on every exit path (compiler), Fiber::stack_unwind/finish_unwind (raw frames), native-callback boundary'],
 )
+
+PROPS['C01'] = dict(
+  level='proof',
+  verus=[dict(unit='ops', min_functions=20)],
+  kani=[dict(crate='value', harnesses=['proofs::o14_6_falsey', 'proofs::o14_3_num_eq_ieee'], features='', kind='complete', assumption_ids=['A-kani']),
+        dict(crate='value', harnesses=['proofs::o14_6_falsey', 'proofs::o14_3_num_eq_ieee'], features='nan_boxing', kind='complete', assumption_ids=['A-kani'])],
+  not_decided=['parser precedence/associativity, statement lowering, scope-exit drops, returns: everything in parser.rs / compiler/mod.rs',
+               'call protocol (arity check, frame push/pop, return value placement)',
+               'A-float: IEEE operators are named, uninterpreted functions of (left, right)'],
+)
+PROPS['C03'] = dict(
+  level='proof',
+  verus=[dict(unit='ops', min_functions=10), dict(unit='peephole', min_functions=2)],
+  not_decided=['compile-time field numbering vs run-time Field order (Compiler::class/emit_fields), Class::inherit / meta classes, instance construction (call_class)',
+               'A-heap: class tables and instance slots are an abstract heap; A-slot'],
+)
+PROPS['C13'] = dict(
+  level='proof',
+  verus=[dict(unit='ops', min_functions=12)],
+  not_decided=['A-slot: every slot id in live code of a module is inside that module\'s cache and belongs to one site with one name (established by Vm::compile; false for REPL entries, see C19)',
+               'A-classid: a class address identifies one class for as long as it sits in a cache (GC address reuse: cache entries are not roots) — not decided'],
+)
+PROPS['C16'] = dict(
+  level='proof',
+  verus=[dict(unit='ops', min_functions=40)],
+  not_decided=['the ~150 native bodies, call_native, recursion through native callbacks, errors during handling, resolve_call/call/call_closure (frame limit)'],
+)
+_HEAP_COMPLETE = ['proofs::o20_2_next_aligned', 'proofs::o20_2_array_layout_str', 'proofs::o20_2_array_layout_tuple', 'proofs::o20_2_array_layout_instance',
+                  'proofs::o20_2_vector_layout_list', 'proofs::o20_2_obj_layout_fixed']
+_HEAP_BOUNDED = ['proofs::o20_1_alloc_drop_string', 'proofs::o20_1_alloc_drop_tuple', 'proofs::o20_1_alloc_drop_box', 'proofs::o20_1_alloc_drop_method']
+_GC_BOUNDED = ['proofs::o20_4_full_collection_exact', 'proofs::o20_4n_nursery_collection_exact', 'proofs::o05_4_marks_cleared', 'proofs::o05_4_temp_root_survives']
+PROPS['C20'] = dict(
+  level='proof',
+  kani=[dict(crate='heap', harnesses=_HEAP_COMPLETE, kind='complete', assumption_ids=['A-kani']),
+        dict(crate='heap', harnesses=_HEAP_BOUNDED, kind='bounded', bound='string <= 3 bytes, tuple <= 3 elements, unwind 8', assumption_ids=['A-kani', 'A-bound']),
+        dict(crate='gc', harnesses=_GC_BOUNDED, kind='bounded', bound='one LyBox, one or two collections, unwind 4', timeout=2400, jobs=4,
+             assumption_ids=['A-kani', 'A-bound', 'A-stub'])],
+  not_decided=['"exactly the objects reachable from the program": the root sets of Vm and Compiler (C05)', 'long-run boundedness (follows by arithmetic from exact accounting after every collection; stated, not proved)',
+               'intern table contents (C09)'],
+)
